@@ -64,6 +64,7 @@ def check_C01(ctx, tier):
     A.rule_A_CODEC_CONFIG(ctx, ctx.repo)         # ... decided by the archive's settings, not by what the value looks like
     A.rule_A_SETTINGS_EXPLICIT(ctx, ctx.repo)     # ... which are the ones the caller passed, not ones guessed from the archive's name
     A.rule_A_ZSTREAM(ctx, ctx.repo)               # ... and compressed entries are decompressed whole
+    A.rule_A_ABS(ctx, ctx.repo, A.Cache(ctx.repo, unroll=1))    # the archive a result is loaded from is the function's own, whatever the working directory is by then
     ctx.require_instances('W-KEY', 36, 'key uses')
     ctx.require_instances('W-ARGS', 12, 'evaluation sites')
     ctx.assume('an entry (k -> v) in memory or archive satisfies v = f(a) for K(a) = k at the start of the call (inductive hypothesis)')
@@ -97,6 +98,7 @@ def check_C02(ctx, tier):
     A.rule_A_CODEC(ctx, ctx.repo)                 # ... and what is stored can be decoded by the session that needs it
     A.rule_A_RED_COPY(ctx, ctx.repo, ac, parts=('red',))     # ... also when the archive reached that session inside a pickled decorator (same format settings)
     A.rule_A_ABS(ctx, ctx.repo, ac)               # ... and under the same location whatever the working directory is by then
+    A.rule_A_RED_DERIVED(ctx, ctx.repo)           # ... under the file names its settings say, also in a handle rebuilt from a pickle (nothing derived is cached outside __state__)
     A.rule_A_WRITEALL(ctx, ctx.repo, ac)          # ... every dumped entry is really written (no "already there" shortcut decided on this handle's view)
     A.rule_A_NOCACHE(ctx, ctx.repo, ac)           # ... and read back from the store itself (a second decorator's handle sees it)
     A.rule_A_ZSTREAM(ctx, ctx.repo)               # ... and the reader of compressed entries accepts whatever the writer stored (no reader-only size limit)
@@ -119,6 +121,7 @@ def check_C05(ctx, tier):
         W.rule_W_CLEAR(ctx, d)
         W.rule_W_WRITERS(ctx, d)                   # an entry removed behind the bookkeeping's back leaves a stale victim: the next overflow evicts nothing
         W.rule_W_INTERNAL(ctx, d, paths)           # an exception of the wrapper's own making between the insertion and the eviction leaves the cache over its bound
+        W.rule_W_COMPACT(ctx, d)                   # the LRU queue compaction leaves one occurrence per key (else later victims are not resident and nothing is evicted)
         if d.name == 'mru_cache':
             _sample_paths(ctx, d, paths, lambda o: o.kind == 'return' and any(e.kind == 'DEL' for e in o.st.events))
     S.rule_S_LOAD_DUMP(ctx, ctx.repo)              # cache.load(key) brings in at most the one entry the overflow test then accounts for (a tuple key is not unpacked)
@@ -142,10 +145,13 @@ def check_C06(ctx, tier):
         W.rule_W_ALIAS(ctx, d)                     # the bound-method shortcuts of the recency queue keep pointing at the queue
         W.rule_W_BKUNBOUNDED(ctx, d)               # ... which never drops a recorded use on its own (no maxlen)
         W.rule_W_CLEAR(ctx, d)                     # clear() empties the bookkeeping with the cache: use counts are "since the entry entered the cache"
+        W.rule_W_WRITERS(ctx, d)                   # only the wrapper (and clear) touch the bookkeeping: a management closure that re-files keys overwrites the recorded order
+        W.rule_W_INTERNAL(ctx, d, paths)           # the compaction / eviction steps raise nothing of their own (an aborted step leaves queue and counts out of step)
         if d.name == 'lru_cache' and d.modname == '_cache':
             _sample_paths(ctx, d, paths, lambda o: o.kind == 'return' and any((e.extra or {}).get('driver') for e in o.st.events))
     S.rule_S_PLAIN_EFF(ctx, ctx.repo)              # del cache[victim] removes exactly that entry, cache[k] = v stores it (plain dict operations)
     A.rule_A_FNAME(ctx, ctx.repo, A.Cache(ctx.repo, unroll=1))   # ... also when the cache is a directory archive used directly: two keys never share an entry
+    A.rule_A_GLOBROOT(ctx, ctx.repo)               # ... and len(cache) counts its entries wherever the directory lives (the root is never read as a glob pattern)
     ctx.assume('tie-breaking among equal counts/recencies and residency of the selected victim are not decided')
     return ('Policy-defining operations on every path: LRU records each use at one end with paired refcounts and evicts from the other '
             'end skipping keys with later uses, compaction preserves order; MRU moves a hit to the recent end and evicts from it before '
@@ -168,6 +174,8 @@ def check_C07(ctx, tier):
     S.rule_S_PLAIN_EFF(ctx, ctx.repo)      # ... and no other operation of the cache object (pop, del, clear, ...) reaches into the archive
     _ac = A.Cache(ctx.repo, unroll=1 if tier == 'quick' else 2)
     A.rule_A_PUBFAIL(ctx, ctx.repo, _ac)   # a failed write-back never replaces or removes what is archived
+    A.rule_A_ABS(ctx, ctx.repo, _ac)       # ... in the archive the function was given, whatever the working directory is when the eviction happens
+    A.rule_A_GLOBROOT(ctx, ctx.repo)       # ... where the lister finds it again (the archive's own path is never read as a glob pattern)
     A.rule_A_PUB(ctx, ctx.repo, _ac, only_foreign=True)       # ... and is staged next to its target, so the publishing rename cannot fail for being on another file system (a swallowed EXDEV)
     A.rule_A_WRITEALL(ctx, ctx.repo, _ac)  # a dumped entry is written whatever the archive holds already
     A.rule_A_FNAME(ctx, ctx.repo, _ac)     # ... under a name of its own (a dump never overwrites the entry of another key)
@@ -230,6 +238,9 @@ def check_C18(ctx, tier):
     S.rule_S_LOAD_DUMP(ctx, ctx.repo)  # ... the entry is archived under key(args) itself (a tuple key is never taken for a collection of keys)
     A.rule_A_FNAME(ctx, ctx.repo, A.Cache(ctx.repo, unroll=1))   # ... and under a name no other key shares (key('a/b') is not reported archived because 'a_b' is)
     A.rule_A_CODEC(ctx, ctx.repo)      # ... and stays readable there (the reader accepts whatever the writer emitted)
+    A.rule_A_GETKEY(ctx, ctx.repo)     # ... and is listed under key(args) again (the lister recovers exactly the key that was stored)
+    A.rule_A_GLOBROOT(ctx, ctx.repo)   # ... wherever the archive directory lives
+    K.rule_K_OWN(ctx, ctx.repo)        # key(args) does not depend on what this process keyed before (no module-level state on the key path)
     return ('key() returns the same normal form K the wrapper looks up and stores under (36 sites), lookup() returns GET(K) and lets '
             'KeyError escape, neither evaluates nor mutates; interface attributes are wired to the decorator\'s own cache/keymap/ignore.')
 
@@ -264,6 +275,7 @@ def check_C10(ctx, tier):
     K.rule_K_INFO_TYPED_SENT(ctx, ctx.repo)
     K.rule_K_SENTINEL_SET(ctx, ctx.repo)
     K.rule_K_CHAIN(ctx, ctx.repo)          # a chain a + b keys with the options configured on b
+    K.rule_K_CHAIN_COPIES(ctx, ctx.repo)   # ... as they were when the chain was built (the links are copies)
     K.rule_K_FORWARD(ctx, ctx.repo)
     K.rule_K_HASH(ctx, ctx.repo)
     K.rule_K_DISPATCH(ctx, ctx.repo)
@@ -293,6 +305,8 @@ def check_C17(ctx, tier):
     K.rule_K_BYREF(ctx, ctx.repo)   # dill pickles by reference
     K.rule_K_RED(ctx, ctx.repo)     # a keymap that travelled to the other session inside a pickled decorator keys as it did here
     K.rule_K_ENCFALLBACK(ctx, ctx.repo)   # no fallback from a named algorithm to the per-process builtin hash / repr
+    K.rule_K_DISPATCH(ctx, ctx.repo)      # the encoder a call goes through is chosen at the call, not remembered from an earlier one (a bound method cached on the instance survives copy / chaining)
+    K.rule_K_CHAIN_COPIES(ctx, ctx.repo)  # a chain is not an alias of keymaps the program goes on configuring
     S.rule_S_LOAD_DUMP(ctx, ctx.repo)   # the key is handed to the archive as the one object it is (a raw key is a tuple: never unpacked into several keys)
     RR.rule_R_STATELESS(ctx, ctx.repo)  # rounding (the first step of every key) keeps no state between calls
     RR.rule_R_GUARD_STR_KW(ctx, ctx.repo)   # ... and rounds floats only (round(Decimal, n) follows the thread's decimal context)
@@ -308,6 +322,7 @@ def check_C11(ctx, tier):
     G.rule_G_PROBE(ctx, ctx.repo)
     G.rule_G_STALE(ctx, ctx.repo)
     G.rule_G_FORMS(ctx, ctx.repo)
+    G.rule_G_WRAPBARE(ctx, ctx.repo)               # a set / frozenset / dict-keys specification is a collection of entries, not one entry
     G.rule_G_FIELDS(ctx, ctx.repo)
     G.rule_G(ctx, ctx.repo, want=('G-VAL',))       # everything that is not ignored still reaches the key
     G.rule_G_SELFDROP(ctx, ctx.repo)               # ... also the first positional argument, unless its own parameter is ignored
@@ -390,6 +405,8 @@ def check_C08(ctx, tier):
     A.rule_A_NONE_ABSENT(ctx, ctx.repo)       # load / dump / sync never take a stored None for an absent key
     A.rule_A_CODEC_CONFIG(ctx, ctx.repo)      # what load() reads carries the keys and values that were stored (no guessing conversion on the way back)
     A.rule_A_CODEC(ctx, ctx.repo)             # ... and the reader accepts everything the writer emits (one unreadable value would make the whole archive read as empty)
+    A.rule_A_GLOBROOT(ctx, ctx.repo)          # ... and lists everything that was dumped (the archive's own path is never read as a glob pattern)
+    A.rule_A_EFF(ctx, ctx.repo, ac8)          # sync(clear=True) really empties the archive before the cache is written back (clear removes what is listed)
     A.rule_A_FACTORY_OPEN(ctx, ctx.repo, ac8, open_only=True, factories=False)   # opening another handle on the archive does not undo or disturb a dump (no removal in the constructors)
     A.rule_A_SCHEMA(ctx, ctx.repo)            # after dump() a key reads back the value written last (sqlite row order, untyped columns)
     A.rule_A_READFAIL(ctx, ctx.repo, ac8)     # dump / load / sync on an archive whose file is empty or unreadable treat it as empty
@@ -419,6 +436,8 @@ def check_C03(ctx, tier):
     A.rule_A_GETKEY(ctx, ctx.repo)                # the lister recovers exactly the key that was stored
     A.rule_A_COPYTREE(ctx, ctx.repo)              # copy(name) does not merge into an existing archive
     A.rule_A_COPY_NODESTROY(ctx, ctx.repo, cache) # ... and never removes one
+    A.rule_A_UPDATE_ARG(ctx, ctx.repo)            # update() takes any iterable of pairs, as dict.update does
+    A.rule_A_LOCATION_VERBATIM(ctx, ctx.repo)     # archives at different locations are different archives (a location is not parsed as a URL)
     A.rule_A_PUBPARENTS(ctx, ctx.repo, cache)     # a key containing the path separator is stored (nested) like any other
     A.rule_A_READFAIL(ctx, ctx.repo, cache)       # a store that cannot be decoded reads as empty / missing
     A.rule_A_WRITEALL(ctx, ctx.repo, cache)       # every assignment reaches the store
@@ -459,6 +478,7 @@ def check_C04(ctx, tier):
     A.rule_A_SETTINGS_EXPLICIT(ctx, ctx.repo)     # ... which are the ones the caller passed, not ones guessed from the archive's name
     A.rule_A_ZSTREAM(ctx, ctx.repo)               # ... and compressed entries are decompressed whole
     A.rule_A_GETKEY(ctx, ctx.repo)                 # ... and lists it under the key it was stored with
+    A.rule_A_LOCATION_VERBATIM(ctx, ctx.repo)      # ... at the location that was named, and no other
     A.rule_A_SCHEMA(ctx, ctx.repo)                 # ... with the value written last (row order of the sqlite table)
     A.rule_A_GLOBAL(ctx, ctx.repo)                 # ... from the store, not from a process-wide table of objects read earlier (klepto/_pickle.py included)
     A.rule_A_PUBFAIL(ctx, ctx.repo, cache)         # ... and a store that failed (encode error, lost publish race) left the stored contents alone
@@ -499,6 +519,8 @@ def check_C14(ctx, tier):
     A.rule_A_LISTREAD(ctx, ctx.repo, cache)
     A.rule_A_READFAIL(ctx, ctx.repo, cache)       # a reader that meets an entry in the middle of being replaced gets "absent", never a failure
     A.rule_A_UNPUB(ctx, ctx.repo, cache)
+    A.rule_A_SCHEMA(ctx, ctx.repo)                # a reader finishes its SELECT (no fetchone() on a shared cursor: the open statement keeps a SHARED lock other writers time out on)
+    A.rule_A_FNAME(ctx, ctx.repo, cache)          # every process maps a key to the same entry name (no per-process hash)
     ctx.tables['primitives'] = A.PRIMITIVES
     ctx.assume('the interleavings themselves are not enumerated; only what a concurrent process could observe through the structure of the protocols')
     return ('Necessary conditions for concurrent processes: readers see a complete old or new object (publish by rename without prior unlink), '
@@ -520,12 +542,14 @@ def check_C20(ctx, tier):
     A.rule_A_RED_DERIVED(ctx, ctx.repo)  # nothing computed from the settings lives outside __state__ (the constructor re-runs with defaults on unpickling)
     A.rule_A_ABS(ctx, ctx.repo, cache)   # the clone addresses the same store whatever its working directory
     A.rule_A_FACTORY_OPEN(ctx, ctx.repo, cache, open_only=True, factories=False)  # unpickling re-runs the constructor on the shared store: it must not write it
+    A.rule_A_INITRAISE(ctx, ctx.repo)    # ... nor fail on what it finds under the base name in the restoring process's working directory
     A.rule_A_EFF(ctx, ctx.repo, cache, must_read_only=True)     # clone and original share storage only: every read goes to the store, not to a process-wide table
     S.rule_S_RED(ctx, ctx.repo)
     S.rule_S_IDENT(ctx, ctx.repo)     # no behaviour hangs on the identity of a module-level instance that pickling copies
     K.rule_K_REPR(ctx, ctx.repo)      # K-SINGLETON: marker objects inside keys survive the round trip as themselves
     K.rule_K_STATE(ctx, ctx.repo)     # a keymap keeps its options through copy / pickle
     K.rule_K_RED(ctx, ctx.repo)       # ... all of them: a pickling hook of a keymap class names every attribute the constructor sets
+    K.rule_K_DISPATCH(ctx, ctx.repo)  # ... and keeps no per-instance memo of encodings (dill re-creates an lru_cache wrapper empty: the clone lacks the original's history)
     G.rule_G_FUNCIDENT(ctx, ctx.repo) # the restored function (a new object) is keyed exactly like the original: nothing on the key path compares the callable by identity
     S.rule_S_LOAD_DUMP(ctx, ctx.repo) # what the original dumps to the shared archive later is found by the copy: load asks the archive for every named key
     ctx.require_instances('W-RED', 12, 'decorator __reduce__ methods')
